@@ -25,13 +25,22 @@ pub fn parse_xml_timestamp(t: &str) -> Result<chrono::NaiveDateTime, XmlParseErr
         // Prior to KDBX4 file format, timestamps were stored as ISO 8601 strings
         Ok(ndt) => Ok(ndt),
         // If we don't have a valid ISO 8601 string, assume we have found a Base64 encoded int.
-        _ => {
+        Err(iso_error) => {
             let v = base64_engine::STANDARD.decode(t)?;
 
-            // Cast the decoded base64 Vec into the array expected by i64::from_le_bytes
-            let mut a: [u8; 8] = [0, 0, 0, 0, 0, 0, 0, 0];
-            a.copy_from_slice(&v[0..8]);
-            let ndt = get_epoch_baseline() + chrono::Duration::seconds(i64::from_le_bytes(a));
+            // Cast the decoded base64 Vec into the array expected by i64::from_le_bytes. A value that is
+            // shorter than that, or a number of seconds outside of the representable range, is not a
+            // timestamp of either format.
+            let ndt = v
+                .get(0..8)
+                .map(|a| {
+                    let mut seconds = [0u8; 8];
+                    seconds.copy_from_slice(a);
+                    i64::from_le_bytes(seconds)
+                })
+                .filter(|seconds| seconds.unsigned_abs() <= (i64::MAX / 1000) as u64) // the range of chrono::Duration
+                .and_then(|seconds| get_epoch_baseline().checked_add_signed(chrono::Duration::seconds(seconds)))
+                .ok_or(iso_error)?;
             Ok(ndt)
         }
     }
